@@ -187,10 +187,10 @@ Lemma run_feed_chain cfg ob pp o h : nth_error ob o = Some h ->
   forall fd st s, nth_error st o = Some s ->
   exists s', chain cfg o h s (calls_of o (concat (run_feed cfg ob pp st fd))) s'.
 Proof.
-  intros Hob. induction fd as [|[p m] rest IH]; intros st s Hs; cbn [run_feed].
+  intros Hob. induction fd as [|stp rest IH]; intros st s Hs; cbn [run_feed].
   - exists s. constructor.
-  - destruct (run_handlers_chain cfg ob o h Hob (nth p pp []) st m s Hs) as (s1 & Hn & Hc).
-    destruct (run_handlers cfg ob st (nth p pp []) m) as [st' es]. cbn [fst snd] in *.
+  - destruct (run_handlers_chain cfg ob o h Hob (plan pp stp) st (smsg stp) s Hs) as (s1 & Hn & Hc).
+    destruct (run_handlers cfg ob st (plan pp stp) (smsg stp)) as [st' es]. cbn [fst snd] in *.
     destruct (IH st' s1 Hn) as (s2 & Hc2). exists s2. cbn [concat]. rewrite calls_of_app.
     eapply chain_app; eassumption.
 Qed.
@@ -373,9 +373,9 @@ Qed.
 Lemma feed_sim cfg : cfg_good cfg -> forall ob pp fd st gs, R3 ob st gs ->
   check_feed ob pp gs fd (map (map (observe_ev ob)) (run_feed cfg ob pp st fd)) = true.
 Proof.
-  intros G ob pp. induction fd as [|[p m] rest IH]; intros st gs HR; cbn [run_feed check_feed map]; [reflexivity|].
-  destruct (handlers_sim cfg G ob (nth p pp []) st gs m HR) as (gs' & Hc & HR').
-  destruct (run_handlers cfg ob st (nth p pp []) m) as [st' es]. cbn [fst snd map] in *.
+  intros G ob pp. induction fd as [|stp rest IH]; intros st gs HR; cbn [run_feed check_feed map]; [reflexivity|].
+  destruct (handlers_sim cfg G ob (plan pp stp) st gs (smsg stp) HR) as (gs' & Hc & HR').
+  destruct (run_handlers cfg ob st (plan pp stp) (smsg stp)) as [st' es]. cbn [fst snd map] in *.
   rewrite Hc. cbn. apply IH, HR'.
 Qed.
 
@@ -416,13 +416,13 @@ Qed.
 Lemma feed_sim_rev cfg : cfg_good cfg -> forall ob pp fd st gs oss, R3 ob st gs ->
   check_feed ob pp gs fd oss = true -> oss = map (map (observe_ev ob)) (run_feed cfg ob pp st fd).
 Proof.
-  intros G ob pp. induction fd as [|[p m] rest IH]; intros st gs oss HR Hc; cbn [run_feed check_feed map] in *.
+  intros G ob pp. induction fd as [|stp rest IH]; intros st gs oss HR Hc; cbn [run_feed check_feed map] in *.
   - destruct oss; [reflexivity|discriminate].
   - destruct oss as [|os oss']; [discriminate|].
-    destruct (check_handlers ob gs (nth p pp []) m os) as [gs' ok] eqn:Ec.
+    destruct (check_handlers ob gs (plan pp stp) (smsg stp) os) as [gs' ok] eqn:Ec.
     apply andb_true_iff in Hc. destruct Hc as [-> Hc].
-    destruct (handlers_sim_rev cfg G ob _ st gs m os gs' HR Ec) as [E HR'].
-    destruct (run_handlers cfg ob st (nth p pp []) m) as [st' es]. cbn [fst snd map] in *.
+    destruct (handlers_sim_rev cfg G ob _ st gs (smsg stp) os gs' HR Ec) as [E HR'].
+    destruct (run_handlers cfg ob st (plan pp stp) (smsg stp)) as [st' es]. cbn [fst snd map] in *.
     f_equal; [exact E|]. eapply IH; eassumption.
 Qed.
 Theorem oracle_exact cfg : cfg_good cfg -> forall sc oss, prop_c16_b sc oss = true <-> oss = observe cfg sc.
